@@ -195,8 +195,11 @@ def classify(d, mp, woven_name, lines):
     region_props = None
     if unit is not None and site and unit.get('regions') and site['line_end'] - site['line_start'] <= 60:
         best = None
-        for ln, pr, rx in unit['regions']:
-            if ln <= site['line_start']:
+        for rg_ in unit['regions']:
+            ln, pr, rx = rg_[0], rg_[1], rg_[2]
+            ln_end = rg_[3] if len(rg_) > 3 else 1 << 30
+            # innermost region (latest start) whose extent contains the failing site
+            if ln <= site['line_start'] <= ln_end and (best is None or ln >= best[0]):
                 best = (ln, pr, rx)
         if best:
             region_props = list(best[1])
